@@ -144,6 +144,13 @@ def oracle(ctx, obs):
                     ctx.violation("S5", f"SVD oracle contract fails: sum s^2 = {float(s2)!r} vs tr G = {float(t)!r}, sum s^4 = {float(s4)!r} vs tr G^2 = {float(t2)!r} ({fam}, n={n})",
                                   {"kind": "svd_contract", "family": fam, "n": n}, dict(rep, sv2=float(s2), sv4=float(s4), trG=float(t), trG2=float(t2)),
                                   found_input=False)
+        elif k == "extreme":
+            base = kval(o["rows"][0]["result"])
+            bad = [r["scale_exp10"] for r in o["rows"] if not close(kval(r["result"]), base)]
+            if bad:
+                ctx.note(f"binary64 range: schmidt_number(c * a) differs from schmidt_number(a) = {base!r} (NaN or drift) for scale factors 10^e, e in {bad} "
+                         "(sigma^4 under/overflows; the power sums are not normalised); outside the validated range |entries| in [1e-60, 1e60]")
+            ctx.note(f"schmidt_number of the all-zero 2x2 array: {o['zero']} (outside the property: non-zero arrays)")
         elif k == "setup":
             n = o["n"]
             ctx.seen(("setup", o["setup"], n, tuple(o["xs"] + o["ys"])))
